@@ -101,6 +101,10 @@ func main() {
 					}
 				}
 			}
+			for _, v := range r.VC.vacuous {
+				fmt.Printf("   VACUOUS premise: %s\n", v)
+				bad++
+			}
 			if *verbose || cmd == "unit" {
 				var notes []string
 				for n := range r.VC.notes {
